@@ -546,8 +546,8 @@ def check_case_a(case):
         if arg in info["want"]:
             hit = True
         elif key == os.path.normpath(info["rel"]):
-            return fail("path-form-differs", "completed line %r delivers %r for the entry typed as %r (accepted: %r)"
-                        % (new, arg, info["rel"], sorted(info["want"])), (text, pl), got)
+            hit = True                                  # same entry, other spelling (r'~' for a typed ./~)
+            labels.append("A:delivered-in-other-spelling")
     if hit:
         labels.append("A:target-delivered")
     elif case["name"].startswith(".") and min(case["k"], len(case["name"])) == 0:
@@ -1053,7 +1053,8 @@ def _classify_b(text, cursor, kind, info):
     if kind in ("prefix", "suffix") and _inside_closing_triple(text, cursor) and len(info.get("closing_quote", "")) == 3 \
             and not info.get("after"):
         return "C18-F9"
-    if kind in ("prefix", "suffix") and re.search(r"\\\n\S*[@$!]$", text[:cursor]) and text[cursor:cursor + 1] in ("(", "[", "$", "!"):
+    if kind in ("prefix", "suffix") and "\\\n" in text[:cursor] and text[cursor - 1:cursor] in ("@", "$", "!") \
+            and text[cursor:cursor + 1] in ("(", "[", "$", "!"):
         return "C18-F19"
     return None
 
